@@ -11,6 +11,7 @@ mod c09;
 mod c10;
 mod c12;
 mod c13;
+mod c14;
 mod c16;
 mod c17;
 mod c18;
@@ -45,6 +46,7 @@ fn main() {
         "C10" => (c10::run, c10::replay),
         "C12" => (c12::run, c12::replay),
         "C13" => (c13::run, c13::replay),
+        "C14" => (c14::run, c14::replay),
         "C16" => (c16::run, c16::replay),
         "C17" => (c17::run, c17::replay),
         "C18" => (c18::run, c18::replay),
